@@ -62,6 +62,7 @@ type c19Model struct {
 	Active   int
 	Docs     map[int]*c19DocModel
 	NextE    int
+	Indexed  []string // fields that carry a secondary index, in creation order
 }
 
 func (m *c19Model) activeHas(f string) bool {
@@ -200,6 +201,22 @@ func c19Alphabet(m *c19Model) []c19Op {
 			ops = append(ops, c19Op{"switch", v})
 		}
 	}
+	// secondary indexes: one on a field of the first version, one on the first added field (only while the
+	// active version knows it) - indexes that predate a patch and indexes created after it must coexist
+	has := func(f string) bool {
+		for _, x := range m.Indexed {
+			if x == f {
+				return true
+			}
+		}
+		return false
+	}
+	if !has("name") {
+		ops = append(ops, c19Op{"index", 0})
+	}
+	if m.activeHas(c19Added[0].Name) && !has(c19Added[0].Name) {
+		ops = append(ops, c19Op{"index", 1})
+	}
 	return ops
 }
 
@@ -253,7 +270,7 @@ func c19Single(r *rep.Run, st *c19Stats, H int) error {
 }
 
 func c19Clone(m *c19Model) *c19Model {
-	n := &c19Model{Active: m.Active, NextE: m.NextE, Docs: map[int]*c19DocModel{}}
+	n := &c19Model{Active: m.Active, NextE: m.NextE, Docs: map[int]*c19DocModel{}, Indexed: append([]string{}, m.Indexed...)}
 	for _, v := range m.Versions {
 		n.Versions = append(n.Versions, c19Version{v.ID, append([]string{}, v.Fields...)})
 	}
@@ -294,6 +311,8 @@ func c19ModelApply(m *c19Model, o c19Op, newVersion string) {
 		}
 	case "switch":
 		m.Active = o.Arg
+	case "index":
+		m.Indexed = append(m.Indexed, []string{"name", c19Added[0].Name}[o.Arg])
 	}
 }
 
@@ -413,6 +432,17 @@ func c19RunHistory(r *rep.Run, st *c19Stats, hist []c19Op) error {
 				return fmt.Errorf("patch created no version")
 			}
 			c19ModelApply(m, o, newVersion)
+		case "index":
+			col, err := n.db.GetCollectionByName(ctx, "U")
+			if err != nil {
+				return err
+			}
+			f := []string{"name", c19Added[0].Name}[o.Arg]
+			if _, err := col.CreateIndex(ctx, client.IndexCreateRequest{Fields: []client.IndexedFieldDescription{{Name: f}}}); err != nil {
+				viol("index-rejected", si, err.Error())
+				return nil
+			}
+			c19ModelApply(m, o, "")
 		case "switch":
 			if err := n.db.SetActiveSchemaVersion(ctx, m.Versions[o.Arg].ID); err != nil {
 				atomic.AddInt64(&st.rejected, 1)
@@ -480,6 +510,31 @@ func c19RunHistory(r *rep.Run, st *c19Stats, hist []c19Op) error {
 			}
 			if world.Canon(want) != world.Canon(row) {
 				viol("value", si, fmt.Sprintf("d%d: want %s got %s", i, world.Canon(want), world.Canon(row)))
+			}
+		}
+		// index-backed reads: ordering by an indexed field the active version knows is served from the index
+		// and must list every live document exactly once
+		for _, f := range m.Indexed {
+			if f != "name" && !m.activeHas(f) {
+				continue
+			}
+			var want []string
+			for _, d := range m.Docs {
+				if !d.Deleted {
+					want = append(want, d.ID)
+				}
+			}
+			sort.Strings(want)
+			for _, req := range []string{fmt.Sprintf(`query { U(order: {%s: ASC}) { _docID } }`, f), fmt.Sprintf(`query { U(order: {%s: DESC}, limit: 10) { _docID } }`, f)} {
+				idata, ierrs := world.Exec(ctx, n.db, req)
+				var got []string
+				for _, row := range world.Rows(idata, "U") {
+					got = append(got, fmt.Sprint(row["_docID"]))
+				}
+				sort.Strings(got)
+				if len(ierrs) > 0 || fmt.Sprint(got) != fmt.Sprint(want) {
+					viol("index-backed-listing", si, fmt.Sprintf("%s returns %v %v, live documents %v (indexes on %v)", req, got, ierrs, want, m.Indexed))
+				}
 			}
 		}
 		st.outcomes.LoadOrStore(fmt.Sprintf("%v|%d|%s", m.Versions[m.Active].Fields, len(m.Docs), world.Canon(data)), true)
